@@ -115,7 +115,7 @@ CTYPES = [None, None, 'application/octet-stream', 'text/plain', 'application/jso
           'Multipart/Mixed; boundary=0']
 
 
-def run_real(mode, inp, cl, buf, max_body, schedule=None, rng=None, kind='cl', expect=b'', short_p=0.5, ctype=None, plain=None):
+def run_real(mode, inp, cl, buf, max_body, schedule=None, rng=None, kind='cl', expect=b'', short_p=0.5, ctype=None, plain=None, _retry=0):
     """plain = k: wsgi.input is an ordinary io.BytesIO positioned at offset k of (k junk bytes + inp) -- what a test client, a
     sub-request or a buffering outer application hands over; its reads cannot be logged (no mechanism conformance for it)."""
     app, res = body_app(buf, max_body)
@@ -145,8 +145,15 @@ def run_real(mode, inp, cl, buf, max_body, schedule=None, rng=None, kind='cl', e
         status = 0      # reported as outcome 'status0' (neither accepted nor a client error)
     if status == 500:
         errs = env['wsgi.errors'].getvalue()
-        if 'Too many open files' in errs or 'No space left on device' in errs or 'Cannot allocate memory' in errs:
-            # the sandbox ran out of descriptors / disk / memory while serving: nothing can be concluded about the code
+        if any(m in errs for m in ('Too many open files', 'No space left on device', 'Cannot allocate memory', 'MemoryError',
+                                   '[Errno 12]', '[Errno 23]', '[Errno 24]', '[Errno 28]')):
+            # the sandbox ran out of descriptors / disk / memory while serving: nothing can be concluded about the code.
+            # Retry after a pause; a persistent failure is a machinery failure (exit 2), never a violation.
+            if _retry < 2:
+                import time as _t
+                _t.sleep(2.0)
+                return run_real(mode, inp, cl, buf, max_body, schedule=schedule, rng=None, kind=kind, expect=expect, short_p=short_p,
+                                ctype=ctype, plain=plain, _retry=_retry + 1)
             raise core.MachineryError('environment failure while serving a request: %s' % errs.strip().splitlines()[-1:])
     phase = {200: 'done', 400: 'e400', 413: 'e413'}.get(status, 'status%d' % status)
     if phase == 'done' and 'out' not in res:
